@@ -2,7 +2,7 @@
    Fields are separated by `|`, records by `;`, sub-fields by `,`, inner lists by blanks; rationals travel as `p/q`; `~` is Python's None.
 
    split       | <nodes> | <pipes> | <others> | <pipe>,<newPipe>,<j0>[ <j1>],<atEnd 0/1>,<f>,<isBreak 0/1> | <segLens>
-   splitpinned | ... same ...        (the code before fixes/C19-*.patch: `junction_coordinates` unbound, check valve passed on)
+   splitpinned | ... same ...        (the code before fixes/C19-split-neutral-new-pipe.patch: minor loss and current status copied to the new pipe)
         node  = name,J|T|R,elev,x,y            pipe = name,a,b,length,diam,rough,minor,initStatus,status,cv,x:y x:y ...      other = name,a,b
      -> `ok N=<nodes> P=<pipes> O=<others>` | `error notAPipe|badFraction|nameInUse|unbound|noElevation`
    skelrun | <snodes> | <slinks> | <jExcl> | <pExcl> | <thr> | <ops>
@@ -98,7 +98,7 @@ def doSplit (pinned : Bool) (fs : List String) : String :=
       match parseBool ae, parseRat f, parseBool br with
       | some ae, some f, some br =>
         let net : Net := { nodes := ns, pipes := ps, others := os }
-        let r := if pinned then splitCore false (fun p => p.cv) net pn np (items " " js) ae f sl br
+        let r := if pinned then splitCopying net pn np (items " " js) ae f sl br
                  else splitOrBreak net pn np (items " " js) ae f sl br
         match r with
         | .ok n => showNet n
